@@ -107,7 +107,7 @@ static int do_start(reproc_t *p, jv *st, jv *exp, jv *v, int idx)
   op.env.behavior = (REPROC_ENV) j_int(o, "envb", 0);
   jv *ex = j_get(o, "envx");
   const char **envx = NULL;
-  if (ex) { envx = calloc((size_t) ex->n + 1, sizeof *envx); for (int i = 0; i < ex->n; i++) envx[i] = ex->a[i]->s; }
+  if (ex) { envx = calloc((size_t) ex->n + 1, sizeof *envx); for (int i = 0; i < ex->n; i++) envx[i] = j_pct_decode(strdup(ex->a[i]->s)); }
   op.env.extra = envx;
   op.redirect.in = mk_redirect(j_get(o, "rin")); op.redirect.out = mk_redirect(j_get(o, "rout")); op.redirect.err = mk_redirect(j_get(o, "rerr"));
   op.redirect.parent = j_int(o, "parent", 0) != 0; op.redirect.discard = j_int(o, "discard", 0) != 0;
@@ -118,7 +118,7 @@ static int do_start(reproc_t *p, jv *st, jv *exp, jv *v, int idx)
   op.stop.first.action = REPROC_STOP_KILL; op.stop.first.timeout = REPROC_INFINITE;
   jv *av = j_get(st, "argv");
   const char **argv = calloc((size_t) (av ? av->n : 0) + 1, sizeof *argv);
-  for (int i = 0; av && i < av->n; i++) argv[i] = (i == 0 && av->a[0]->s[0] == '/') ? mp(av->a[0]->s) : av->a[i]->s;
+  for (int i = 0; av && i < av->n; i++) argv[i] = (i == 0 && av->a[0]->s[0] == '/') ? mp(av->a[0]->s) : j_pct_decode(strdup(av->a[i]->s));
   struct ident before[128], after[128], owned[32]; int nb = scan(before, 128);
   int r = reproc_start(p, j_int(st, "noargv", 0) ? NULL : argv, op);
   int na = scan(after, 128), nown = 0;
@@ -218,7 +218,7 @@ static void run(jv *s, int idx)
   struct rlimit rl = { (rlim_t) j_int(cfg, "limit", 32), (rlim_t) 4096 }; setrlimit(RLIMIT_NOFILE, &rl);
   if (chdir(mp(j_str(cfg, "cwd", "/w"))) != 0) _exit(2);
   jv *env = j_get(cfg, "env");
-  static char *envv[64]; int ne = 0; for (int i = 0; env && i < env->n && ne < 63; i++) envv[ne++] = (char *) env->a[i]->s; envv[ne] = NULL; environ = envv;
+  static char *envv[64]; int ne = 0; for (int i = 0; env && i < env->n && ne < 63; i++) envv[ne++] = j_pct_decode(strdup(env->a[i]->s)); envv[ne] = NULL; environ = envv;
   jv *m = j_get(cfg, "mask"); sigset_t ms; sigemptyset(&ms); for (int i = 0; m && i < m->n; i++) sigaddset(&ms, (int) m->a[i]->i); sigprocmask(SIG_SETMASK, &ms, NULL);
   jv *d = j_get(cfg, "disp");
   for (int i = 0; d && i < d->n; i++) { struct sigaction sa; memset(&sa, 0, sizeof sa); sa.sa_handler = d->a[i]->a[1]->i == 1 ? SIG_IGN : noop_handler; sigaction((int) d->a[i]->a[0]->i, &sa, NULL); }
@@ -229,7 +229,7 @@ static void run(jv *s, int idx)
     const char *fn = j_str(st, "fn", ""); int h = (int) j_int(st, "h", 0);
     if (!strcmp(fn, "new")) H[h] = reproc_new();
     else if (!strcmp(fn, "pchdir")) { if (chdir(mp(j_str(st, "dir", "/"))) != 0) _exit(2); }
-    else if (!strcmp(fn, "psetenv")) { jv *e2 = j_get(st, "env"); ne = 0; for (int i = 0; e2 && i < e2->n && ne < 63; i++) envv[ne++] = (char *) e2->a[i]->s; envv[ne] = NULL; }
+    else if (!strcmp(fn, "psetenv")) { jv *e2 = j_get(st, "env"); ne = 0; for (int i = 0; e2 && i < e2->n && ne < 63; i++) envv[ne++] = j_pct_decode(strdup(e2->a[i]->s)); envv[ne] = NULL; }
     else if (!strcmp(fn, "plimit")) {
       struct rlimit r2 = { (rlim_t) j_int(st, "limit", 64), 4096 }; setrlimit(RLIMIT_NOFILE, &r2);
       jv *op = j_get(st, "open");
